@@ -77,6 +77,7 @@ def draw_cfg(rng, engine, deep=False):
         'rslots': 64,
         'deep': bool(deep),
         'p_repeat': rng.choice([0.0, 0.08, 0.2, 0.35]),
+        'p_scan': rng.choice([0.0, 0.05, 0.15, 0.3]),
     }
     if deep:
         # deeper variant used by a quarter of the thorough runs: more callers, longer histories, and (engine N)
@@ -127,6 +128,7 @@ class OnlyPool(object):
         return self.pool.is_copyrel(obj)
 
 
+SCAN_MAX_STEPS = 400      # only cheap calls are scanned (a scan is up to 12 calls)
 LIFE_KINDS = ('Interpolation', 'CurveFitting', 'Angle', 'Epoch', 'Earth', 'Minor')
 
 
@@ -273,6 +275,49 @@ class GenSource(object):
             if x:
                 walk(x)
         rep['_snaps'] = out
+
+    def _push_scan(self, sim, q, core):
+        """A caller loops: the same call for a run of consecutive values of one integer argument (every month of a
+        year, a few years around a date), inside the range the generator drew it from, in seeded order.  A memo keyed
+        on something coarser than the argument answers one of them with a neighbour's value."""
+        rng = self.rng
+        leaves = []
+
+        def walk(e, path):
+            if isinstance(e, dict):
+                if 'i' in e and 'lo' in e and not isinstance(e['i'], bool) and e['hi'] - e['lo'] >= 2:
+                    leaves.append(path)
+                elif 'mk' in e:
+                    for j, x in enumerate(e['items']):
+                        walk(x, path + ['items', j])
+        for j, x in enumerate(core['args']):
+            walk(x, ['args', j])
+        for k in core['kwargs']:
+            walk(core['kwargs'][k], ['kwargs', k])
+        if not leaves:
+            return
+        path = leaves[rng.randrange(len(leaves))]
+        e = core
+        for k in path:
+            e = e[k]
+        lo, hi, v = e['lo'], e['hi'], e['i']
+        n = rng.randint(3, 12)
+        start = v - rng.randint(0, n - 1)
+        start = max(lo, min(start, hi - n + 1))
+        vals = [x for x in range(start, start + n) if lo <= x <= hi]
+        r = rng.random()
+        if r < 0.5:
+            rng.shuffle(vals)
+        elif r < 0.75:
+            vals.reverse()
+        for x in vals:
+            rep = self._core(core)
+            t = rep
+            for k in path:
+                t = t[k]
+            t['i'] = x
+            self._snaps(sim, rep)
+            q.append(('scan', rep))
 
     def _perturb(self, core):
         """Neighbouring arguments: one numeric literal (or the value of one inline Angle/Epoch) moved a little.
@@ -434,6 +479,11 @@ class GenSource(object):
                     continue
                 sim.count('probe.call_repeated_with_neighbouring_arguments')
                 return self._finish(self._perturb(self._core(val)), task, depth)
+            elif what == 'scan':
+                if not self._args_unchanged(sim, val):
+                    continue
+                sim.count('probe.scan_step_over_consecutive_integer_arguments')
+                return self._finish(self._core(val), task, depth)
             elif what == 'edit':
                 op = self._edit_list(sim, task, val)
                 if op is not None:
@@ -524,6 +574,9 @@ class GenSource(object):
                 q.append(('life', ('change', kind_, a_, None)))
                 q.append(('life', ('use', kind_, b_, same)))
                 q.append(('life', ('use', kind_, b_, None)))
+            if e.effect == 'pure' and not name.endswith('#bad') and self.est(name) <= SCAN_MAX_STEPS and \
+                    rng.random() < self.cfg.get('p_scan', 0.0):
+                self._push_scan(sim, q, core)
             has_list = any(isinstance(x, dict) and x.get('mk') == 'list' for x in args)
             if e.effect == 'pure' and rng.random() < self.cfg['p_repeat']:
                 rep = {'name': name, 'recv': copy.deepcopy(recv), 'args': copy.deepcopy(args),
